@@ -45,6 +45,16 @@ Lemma refresh_grant_sv w n now r : saves_ok anyG one_idx (refresh_grant w n now 
 Proof. unfold refresh_grant. do 2 (break_goal; [exact I|]). auth_sv. crunch1. Qed.
 Lemma cc_grant_sv w n now r : saves_ok anyG one_idx (cc_grant w n now r).
 Proof. unfold cc_grant. break_goal; [exact I|]. auth_sv. crunch1. Qed.
+Lemma jwt_bearer_client_sv w cr : saves_ok anyG one_idx (jwt_bearer_client w cr).
+Proof.
+  unfold jwt_bearer_client. apply sv_bind; [apply authenticated_sv|]. intros [c|]; [exact I|].
+  destruct (_ && _)%bool; exact I.
+Qed.
+Lemma jwt_bearer_grant_sv w n now r : saves_ok anyG one_idx (jwt_bearer_grant w n now r).
+Proof.
+  unfold jwt_bearer_grant. break_goal; [exact I|].
+  apply sv_bind; [apply jwt_bearer_client_sv|]; intros [c|]; [|exact I]. crunch1.
+Qed.
 Lemma ciba_grant_sv w n now r : saves_ok anyG one_idx (ciba_grant w n now r).
 Proof. unfold ciba_grant. break_goal; [exact I|]. auth_sv. crunch1. Qed.
 
@@ -122,7 +132,7 @@ Proof.
   unfold handler. destruct o; try (apply sv_bind; [|intros; exact I]).
   - apply init_auth_sv. - apply continue_auth_sv. - apply push_auth_sv.
   - destruct g; try exact I; (apply sv_bind; [|intros; exact I]).
-    + apply cc_grant_sv. + apply code_grant_sv. + apply refresh_grant_sv. + apply ciba_grant_sv.
+    + apply cc_grant_sv. + apply code_grant_sv. + apply refresh_grant_sv. + apply jwt_bearer_grant_sv. + apply ciba_grant_sv.
   - apply introspect_sv. - apply revoke_sv. - apply userinfo_sv. - apply token_info_sv.
   - apply token_info_req_sv. - apply init_back_auth_sv. - apply notify_success_sv. - apply notify_failure_sv.
   - exact I.
